@@ -7,6 +7,7 @@ escapes lone surrogates).  Python-only values are tagged:
     {"$py": "bytes"|"bytearray", "hex": "..."}      byte strings
     {"$py": "tuple", "items": [...]}                tuples
     {"$py": "pydict", "items": [[k, v], ...]}       dicts with arbitrary (hashable) keys
+    {"$py": "defaultdict", "default": c, "v": {..}} collections.defaultdict producing dec(c) for missing keys
     {"$py": "bigint", "digits": n, "lead": "9"}     huge integers (not spelled out)
     {"$py": "deep", "depth": n, "kind": "list"}     deeply nested containers
     {"$py": "strsub"|"intsub"|"dictsub"|"listsub", "v": ...}  subclass instances
@@ -109,6 +110,12 @@ def dec(j, lib=None):
                 from ..refs import ed25519
 
                 return lib.common.PublicKey.from_bytes(ed25519.public(seed))
+            if t == "defaultdict":
+                # a dict subclass with __missing__: d[key] manufactures (and stores) a default, `key in d` does not
+                import collections
+
+                dflt = j.get("default")
+                return collections.defaultdict(lambda: dec(dflt, lib), dec(j.get("v", {}), lib))
             if t == "pydict":
                 # a dict whose KEYS need not be strings: items = [[key case, value case], ...]
                 return {dec(k, lib): dec(v, lib) for k, v in j["items"]}
